@@ -1,335 +1,408 @@
-"""C15 - a faulty source line is reported as an assembler error naming that file and line."""
+"""C15 - a faulty source line is reported as an assembler error naming that file and line.
+
+The check is one abstract interpretation of `assemble()` (bbverif/absint.py; nothing is executed) with `compress` False and True.
+Every rule below is a statement about facts of that interpretation, never about the text or the shape of the code:
+
+R15.1.escape   no exception other than AssemblerError leaves assemble(): explicit raises, int() of user text, struct.pack /
+               calcsize with a user format or user sized values, eval() of user text (R15.3.eval).  Handlers are try/except and
+               `with cm(...)` for @contextmanager generators.  Raises guarding internal invariants are not discharged by a list:
+               they are simply unreachable in the interpretation (class flow: only Blobs reach resolve_blobs; constant
+               disjuncts: the rule name found by the criteria search always has a construction arm).  A call f(x.F) is
+               known not to raise when the same pure f(x.F) already returned normally on the path (the criteria predicates
+               looked the register up before the construction arm does).  int(<token>) of the last token of an
+               `include_bytes` line cannot raise when the reader itself appended that token from os.path.getsize().
+R15.2.line / R15.5.items   every value that flows into an attribute that holds Line objects (`self.line = line` of Item,
+               LineTokens, AssemblerError ...) is a Line; and it is the Line of the element being processed (provenance tags).
+R15.5.origin   Line(file, number, text): text is an element of <source>.splitlines(), number its 1-based index in that same
+               list, file the path that was opened to read <source> (a constant name when the source is the argument itself).
+R15.6.render   AssemblerError keeps the line and shows line and message; Line shows file and number (dataflow of __str__).
+R15.7.relabel  a handler that catches an error which already names its line does not replace it by another line.
+"""
 import ast
 
 from ..core import Report, Finding, AnalysisError
-from ..facts import Facts
-from ..astutil import unparse, dotted, walk_no_nested, enclosing_function, qualname
-from ..callgraph import CallGraph, Escape
-from ..pathwalk import show, is_const, C
-from .. import layoutrules as LR
-from ..wiring import parse_item_outcomes
-from ..layout import pipeline
+from ..astutil import unparse, walk_no_nested
+from ..absint import Interp, Args, av, const, NONE, INT_U, STR_U, TOP
 
 LEVEL = 'other'
+LINE, ERROR, ENTRY = 'Line', 'AssemblerError', 'assemble'
 
 
-def synthesized_size_token(facts):
-    """True when read_lines appends an integer (os.path.getsize) to include_bytes lines, so that token 2 of such a line is
-    always a number written by the assembler itself."""
-    fn = facts.funcs.get('read_lines')
-    if fn is None:
-        return False
-    for n in ast.walk(fn):
-        if isinstance(n, ast.Assign) and isinstance(n.targets[0], ast.Attribute) and n.targets[0].attr == 'contents' \
-                and isinstance(n.value, ast.Call) and isinstance(n.value.func, ast.Attribute) and n.value.func.attr == 'format' \
-                and isinstance(n.value.func.value, ast.Constant) and n.value.func.value.value.split() == ['{}', '{}'] and len(n.value.args) == 2:
-            size = n.value.args[1]
-            if isinstance(size, ast.Name):
-                for m in ast.walk(fn):
-                    if isinstance(m, ast.Assign) and isinstance(m.targets[0], ast.Name) and m.targets[0].id == size.id \
-                            and isinstance(m.value, ast.Call) and dotted(m.value.func) == 'os.path.getsize':
-                        return True
-    return False
+def entry_args():
+    out = []
+    for compress in (False, True):
+        a = Args([av(('str', 'u', None))])
+        user_dict = ('dict', None, av(INT_U), av(STR_U))
+        a.kw = {'constants': av(NONE, user_dict), 'labels': av(NONE, user_dict), 'compress': av(const(compress)),
+                'include_dirs': av(NONE, ('list', av(STR_U)))}
+        out.append(a)
+    return out
 
 
-def make_library_raisers(facts, cg):
-    safe_size_token = synthesized_size_token(facts)
-
-    def derives_from_user(qual, node, fn):
-        """Does the expression read item fields / tokens (user text)?"""
-        names = {n.id for n in ast.walk(node) if isinstance(n, ast.Name)}
-        attrs = {n.attr for n in ast.walk(node) if isinstance(n, ast.Attribute)}
-        if attrs & {'values', 'imm', 'fmt', 'value', 'expr', 'args', 'alignment'}:
-            return True
-        # a local bound from such an expression (one step)
-        for nm in names:
-            for st in ast.walk(fn):
-                if isinstance(st, ast.Assign) and any(isinstance(t, ast.Name) and t.id == nm for t in st.targets):
-                    a2 = {n.attr for n in ast.walk(st.value) if isinstance(n, ast.Attribute)}
-                    if a2 & {'values', 'imm', 'fmt', 'value'}:
-                        return True
-                if isinstance(st, (ast.For, ast.comprehension)) and isinstance(st.target, ast.Name) and st.target.id == nm:
-                    a2 = {n.attr for n in ast.walk(st.iter) if isinstance(n, ast.Attribute)}
-                    n2 = {n.id for n in ast.walk(st.iter) if isinstance(n, ast.Name)}
-                    if a2 & {'values'} or n2 & {'values'}:
-                        return True
-        if qual == 'parse_item' and names & {'tokens', 'alignment', 'size'}:
-            return True
-        return False
-
-    def raisers(qual, call):
-        fn = cg.funcs[qual]
-        d = dotted(call.func)
-        if d in ('struct.pack', 'struct.calcsize') and call.args:
-            fmt = call.args[0]
-            const_fmt = isinstance(fmt, ast.Constant)
-            if isinstance(fmt, ast.Name):
-                defs = [st.value for st in ast.walk(fn) if isinstance(st, ast.Assign) and any(isinstance(t, ast.Name) and t.id == fmt.id for t in st.targets)]
-                const_fmt = bool(defs) and all(isinstance(v, ast.Constant) and isinstance(v.value, str) for v in defs)
-            values_user = any(derives_from_user(qual, a, fn) for a in call.args[1:])
-            if not const_fmt or values_user:
-                return ['struct.error']
-            return []
-        if d == 'int' and call.args:
-            if derives_from_user(qual, call.args[0], fn):
-                if qual == 'parse_item' and safe_size_token and isinstance(call.args[0], ast.Name) and call.args[0].id == 'size':
-                    return []
-                return ['ValueError']
-        return []
-    return raisers
+def is_line(a):
+    return a[0] == 'obj' and a[1] == LINE
 
 
-def line_kinded(expr, fn, facts, cg, depth=0, visiting=None):
-    """Is the expression a Line object?  (kind dataflow: Line(...) constructions, `.line` attributes of items / token
-    records, parameters whose every call site passes a Line.)"""
-    if isinstance(expr, ast.Attribute) and expr.attr == 'line':
-        return True
-    if isinstance(expr, ast.Call) and dotted(expr.func) == 'Line':
-        return True
-    if isinstance(expr, ast.Name):
-        defs = [st.value for st in ast.walk(fn) if isinstance(st, ast.Assign) and any(isinstance(t, ast.Name) and t.id == expr.id for t in st.targets)]
-        if defs:
-            return all(line_kinded(v, fn, facts, cg, depth, visiting) for v in defs)
-        params = [a.arg for a in fn.args.args]
-        visiting = visiting if visiting is not None else set()
-        if expr.id in params and (id(fn), expr.id) in visiting:
-            return True       # coinductive: a parameter is a Line if every *outside* call site passes one
-        if expr.id in params and depth < 12:
-            visiting = visiting | {(id(fn), expr.id)}
-            idx = params.index(expr.id)
-            qual = [q for q, n in cg.funcs.items() if n is fn]
-            if not qual:
-                return False
-            q = qual[0]
-            is_method = '.' in q and q.split('.')[0] in facts.classes
-            sites = cg.call_sites().get(q, [])
-            if not sites:
-                return expr.id == 'line'
-            ok = True
-            for cfn, call in sites:
-                pos = idx - 1 if is_method else idx
-                if pos < len(call.args):
-                    arg = call.args[pos]
+def chain_text(rec):
+    return ' -> '.join('{}:{}'.format(q, getattr(n, 'lineno', '?')) for q, n in rec.chain if q != '<entry>')
+
+
+# -- R15.6: which attributes of self flow into the value returned by a method (intra-procedural backward slice) ---------------
+def returned_self_attrs(it, cname, fn, depth=0):
+    """(attributes of self that flow into the value the method returns, opaque?)  following locals and other methods of self;
+    opaque: self is handed to something that is not followed, so more attributes may be shown than were found"""
+    defs = {}
+    for n in walk_no_nested(fn):
+        if isinstance(n, ast.Assign):
+            for t in n.targets:
+                for nm in ast.walk(t):
+                    if isinstance(nm, ast.Name):
+                        defs.setdefault(nm.id, []).append(n.value)
+        elif isinstance(n, ast.AugAssign) and isinstance(n.target, ast.Name):
+            defs.setdefault(n.target.id, []).append(n.value)
+        elif isinstance(n, (ast.For, ast.comprehension)):
+            for nm in ast.walk(n.target):
+                if isinstance(nm, ast.Name):
+                    defs.setdefault(nm.id, []).append(n.iter)
+    selfname = fn.args.args[0].arg if fn.args.args else None
+    attrs, seen, todo = set(), set(), []
+    opaque = False
+    for n in walk_no_nested(fn):
+        if isinstance(n, ast.Return) and n.value is not None:
+            todo.append(n.value)
+    while todo:
+        e = todo.pop()
+        for n in ast.walk(e):
+            if isinstance(n, ast.Attribute) and isinstance(n.value, ast.Name) and n.value.id == selfname:
+                c, q = it.find_method(cname, n.attr)
+                if q is not None and depth < 3:
+                    sub, op2 = returned_self_attrs(it, cname, it.funcs[q], depth + 1)
+                    attrs |= sub
+                    opaque = opaque or op2
                 else:
-                    kw = [k.value for k in call.keywords if k.arg == expr.id]
-                    if not kw:
-                        return False
-                    arg = kw[0]
-                if not line_kinded(arg, cfn, facts, cg, depth + 1, visiting):
-                    ok = False
-            return ok
-    return False
+                    attrs.add(n.attr)
+            elif isinstance(n, ast.Call):
+                for a in list(n.args) + [k.value for k in n.keywords]:
+                    if isinstance(a, ast.Name) and a.id == selfname:
+                        opaque = True        # format(self), vars(self), helper(self)
+            elif isinstance(n, ast.Name) and n.id not in seen:
+                seen.add(n.id)
+                todo.extend(defs.get(n.id, []))
+    return attrs, opaque
+
+
+def init_param_fields(it, cname):
+    """{attribute: parameters of the constructor that flow into it} following locals and super().__init__(...)"""
+    out = {}
+    c, q = it.find_method(cname, '__init__')
+    if q is None:
+        return out, []
+    fn = it.funcs[q]
+    params = [a.arg for a in fn.args.args[1:]]
+    defs = {}
+    for n in walk_no_nested(fn):
+        if isinstance(n, ast.Assign):
+            for t in n.targets:
+                if isinstance(t, ast.Name):
+                    defs.setdefault(t.id, []).append(n.value)
+
+    def sources(e, seen):
+        res = set()
+        for n in ast.walk(e):
+            if isinstance(n, ast.Name):
+                if n.id in params:
+                    res.add(n.id)
+                elif n.id not in seen:
+                    seen.add(n.id)
+                    for d in defs.get(n.id, []):
+                        res |= sources(d, seen)
+        return res
+    for n in walk_no_nested(fn):
+        if isinstance(n, ast.Assign):
+            for t in n.targets:
+                if isinstance(t, ast.Attribute) and isinstance(t.value, ast.Name) and t.value.id == fn.args.args[0].arg:
+                    out.setdefault(t.attr, set()).update(sources(n.value, set()))
+    return out, params
 
 
 def run(repo, tier):
-    facts = Facts(repo.asm)
     rep = Report('C15', LEVEL,
-                 'Exception-escape analysis over a call graph with repository-specific resolution (INSTRUCTIONS table -> partial '
-                 'bindings -> encoders and constraint closures, criteria predicate closures, methods by name, positional rebuild): for '
-                 'every explicit raise of something other than AssemblerError, and every struct / int() call fed with user data, every '
-                 'call chain from assemble() must cross a handler that catches it and raises AssemblerError(message, <Line>).  Raises '
-                 'guarding internal invariants are discharged by the analysis that proves them dead (class flow, dispatch exhaustiveness). '
-                 'Kind dataflow: second argument of every AssemblerError is a Line; every item built by the parser or a pass carries the '
-                 'line of its source; Line is created once per physical line with the path of the file being read and a 1-based number.')
-    rep.trusted_base = ['CPython ast', 'bbverif.callgraph resolution rules', 'bbverif.pathwalk']
-    rep.not_decided = ['exceptions Python raises implicitly on malformed arity or syntax (tuple unpacking, tokens[3] IndexError, UnicodeDecodeError on a trailing '
-                       'backslash, ZeroDivisionError for align 0): listed as escape candidates, not judged',
-                       'duplicate label definitions are not refused at all, so the premise "when a program is refused" is never met for that class']
-    cg = CallGraph(facts)
-    rep.count('functions in call graph', len(cg.funcs))
-    # internal-invariant raises proved dead
-    dead = set()
-    blobs = facts.funcs.get('resolve_blobs')
-    flows_ok = True
-    for compress in (False, True):
-        steps = LR.class_flow(facts, compress)
-        if not steps or steps[-1][3] != {'Blob'}:
-            flows_ok = False
-    if blobs is not None and flows_ok:
-        for n in ast.walk(blobs):
-            if isinstance(n, ast.Raise):
-                dead.add(id(n))
-        rep.ok('R15.1.dead', 'resolve_blobs: `expected only blobs` is unreachable (class flow ends in {Blob} on both arms)')
-    # a lookup_register(item.F) in a construction arm is dominated by the matched rule's predicates, each of which already
-    # looked the same unchanged field up without raising (all() evaluated every predicate of the rule that fired)
-    safe = set()
-    try:
-        from ..comprel import CompRel, mentions
-        from ..immsites import find_all
-        rel = CompRel(facts)
-        rules = {ru.key: ru for ru in rel.rules}
-        for key, con in rel.constructions.items():
-            ru = rules.get(key)
-            if ru is None:
+                 'Abstract interpretation of assemble() (compress False / True) over classes, callables (closures, partial bindings, '
+                 'dispatch tables, functions passed to helpers), exceptions in flight with the handlers they cross (try/except and '
+                 '@contextmanager generators used in `with`), provenance tags of Line-carrying objects, user text / user sized integers, '
+                 'and path facts (constant refinement, token-list shape, calls that already returned normally).  No exception other '
+                 'than AssemblerError may leave assemble(); every value stored into a Line-holding attribute is the Line of the element '
+                 'being processed; Line objects are created with the path being read and the 1-based index of the physical line; a handler '
+                 'never replaces the line of an error that already has one; the error renders line and message.')
+    rep.assumptions = ['the integer returned by a mnemonic binding (a module-level partial / entry of the INSTRUCTIONS table) fits its instruction width: theorem of C01 / C02',
+                       'the reader (raw prefix of the line) and the parser (first token) select the same `include_bytes` lines']
+    rep.trusted_base = ['CPython ast', 'bbverif.absint (abstract semantics of the Python subset used by asm.py, models of the standard library functions it calls)']
+    rep.not_decided = ['exceptions Python raises implicitly on malformed arity or syntax (tuple unpacking, tokens[3] IndexError, KeyError of a table lookup, '
+                       'UnicodeDecodeError on a trailing backslash, ZeroDivisionError for align 0): where the code has a handler for them its body is '
+                       'analysed, elsewhere they are not judged',
+                       'duplicate label definitions are not refused at all, so the premise "when a program is refused" is never met for that class',
+                       '__str__ / __repr__ reached through string formatting are not followed',
+                       'the reader recognises `include_bytes` lines by their raw prefix and the parser by their first token: the argument that the '
+                       'size token is always the reader\'s own integer relies on both selecting the same lines']
+    it = Interp(repo.asm, source_text=repo.text.get('bronzebeard/asm.py'))
+    for anchor in (ENTRY,):
+        if anchor not in it.funcs:
+            raise AnalysisError('anchor vanished: {}'.format(anchor))
+    for anchor in (LINE, ERROR):
+        if anchor not in it.classes:
+            raise AnalysisError('anchor vanished: class {}'.format(anchor))
+    results = it.run(ENTRY, entry_args)
+    rep.count('functions reached from assemble', len(it.reached))
+    for (ret, excs), arm in zip(results, ('compress=False', 'compress=True')):
+        if not ret:
+            raise AnalysisError('assemble({}) never returns in the interpretation: nothing was analysed'.format(arm))
+    # ---- R15.1 / R15.3: what leaves assemble ----------------------------------------------------------------------------------
+    escaping = {}
+    for (ret, excs), arm in zip(results, ('compress=False', 'compress=True')):
+        for rec in excs:
+            if it.is_subclass(rec.cls, ERROR):
                 continue
-            used = set()
-            for f in ru.formulas:
-                used |= mentions(f)
-            looked = find_all(con.val, lambda t: t[0] == 'call' and t[1] == 'lookup_register' and len(t[2]) == 1
-                              and t[2][0][0] == 'attr' and t[2][0][1] == rel.pa.item)
-            if looked and all(t[2][0][2] in used for t in looked):
-                for n in ast.walk(con.node):
-                    if isinstance(n, ast.Call) and dotted(n.func) == 'lookup_register':
-                        safe.add(id(n))
-                        rep.ok('R15.1.dominated', 'construction of {!r}: lookup_register({}) was already evaluated by the rule\'s predicates'.format(key, unparse(n.args[0])))
-    except AnalysisError:
-        safe = set()
-    esc = Escape(cg, make_library_raisers(facts, cg), dead, safe)
-    n_sites = len([n for q, f in cg.funcs.items() for n in walk_no_nested(f) if isinstance(n, ast.Raise)])
-    rep.analysed['raise sites'] = n_sites
-    if 'assemble' not in esc.esc:
-        raise AnalysisError('anchor vanished: assemble')
-    escaping = {k: v for k, v in esc.esc['assemble'].items() if k[0] != 'AssemblerError'}
-    reachable_origins = set()
-    for (exc, origin), chain in sorted(escaping.items(), key=lambda t: (t[0][0], t[1][-1][1].lineno)):
-        q_origin, node = chain[-1]
+            k = (rec.cls, id(rec.origin))
+            cur = escaping.get(k)
+            if cur is None or (cur.uncertain and not rec.uncertain) or (cur.uncertain == rec.uncertain and len(rec.chain) < len(cur.chain)):
+                escaping[k] = rec
+    undecided = []
+    for (exc, _), rec in sorted(escaping.items(), key=lambda t: (t[0][0], getattr(t[1].origin, 'lineno', 0))):
+        chain = [c for c in rec.chain if c[0] != '<entry>']
+        q_origin = chain[-1][0]
+        if rec.uncertain:
+            undecided.append('{}:{} whether `{}` can raise {} depends on a value the analysis does not know'.format(q_origin, getattr(rec.origin, 'lineno', '?'), unparse(rec.origin)[:50], exc))
+            continue
+        if isinstance(rec.origin, ast.Raise) and q_origin in it.funcs and any(id(n) in it.unrefined_type_tests for n in walk_no_nested(it.funcs[q_origin])):
+            # an explicit raise in a function that tests types in a way the interpretation cannot follow: whether the raise is
+            # reachable is not known
+            undecided.append('{}:{} whether `{}` is reachable depends on a type test the analysis does not follow'.format(
+                q_origin, rec.origin.lineno, unparse(rec.origin)[:50]))
+            continue
         entry = chain[1][0] if len(chain) > 1 else chain[0][0]
-        text = ' -> '.join('{}:{}'.format(q, n.lineno) for q, n in chain)
-        rep.fail(Finding('R15.1.escape', '{} via {}'.format(q_origin, entry), node,
-                         '{} raised here leaves assemble() without being converted into an AssemblerError carrying the source line; call chain: {}'.format(exc, text),
-                         line=node.lineno, detail={'chain': text}), instance='{} {} via {}'.format(exc, q_origin, entry))
-    # what was converted (positive evidence)
+        text = chain_text(rec)
+        is_eval = isinstance(rec.origin, ast.Call) and isinstance(rec.origin.func, ast.Name) and rec.origin.func.id == 'eval'
+        rule = 'R15.3.eval' if is_eval else 'R15.1.escape'
+        what = 'python exceptions from evaluating a user expression can leak (no catch-all converting handler around eval)' if is_eval else \
+            '{} raised here leaves assemble() without being converted into an AssemblerError carrying the source line'.format(exc)
+        rep.fail(Finding(rule, '{} via {}'.format(q_origin, entry), rec.origin, '{}; call chain: {}'.format(what, text),
+                         line=getattr(rec.origin, 'lineno', None), detail={'chain': text}), instance='{} {} via {}'.format(exc, q_origin, entry))
+    # positive evidence: origins reached and the handlers that convert them
+    origins = {k: v for k, v in it.ev_origin.items() if not it.is_subclass(v[2], ERROR)}
+    rep.analysed['exception origins reached'] = len(origins)
     conv = {}
-    for q, h, exc, chain in esc.handlers_seen:
-        if exc == 'AssemblerError':
+    for (hid, rkey), (q, h, rec, how) in it.ev_handler.items():
+        if it.is_subclass(rec.cls, ERROR) or rec.implicit:
             continue
-        conv.setdefault((chain[-1][0], exc, q), h)
-    for (origin, exc, q), h in sorted(conv.items()):
-        converts = any(isinstance(n, ast.Raise) and n.exc is not None and isinstance(n.exc, ast.Call) and dotted(n.exc.func) == 'AssemblerError' for n in ast.walk(h))
-        swallowed_ok = q in ('lookup_register', 'is_int') or (h.type is None and q in ('lookup_register', 'is_int'))
-        if converts:
-            rep.ok('R15.1.escape', '{} from {} is converted to AssemblerError in {}'.format(exc, origin, q))
-        elif not swallowed_ok and q not in ('cli_main',):
-            rep.note('{} from {} is absorbed (not converted) by a handler in {}'.format(exc, origin, q))
+        conv.setdefault((id(rec.origin), hid), (q, h, rec))
+    for (oid, hid), (q, h, rec) in sorted(conv.items(), key=lambda t: (t[1][0], getattr(t[1][2].origin, 'lineno', 0))):
+        if (rec.cls, oid) not in escaping:
+            oq = rec.chain[-1][0]
+            rep.ok('R15.1.escape', '{} from {}:{} is caught in {}'.format(rec.cls, oq, getattr(rec.origin, 'lineno', '?'), q))
     rep.analysed['conversions seen'] = len(conv)
-    # R15.7 an AssemblerError already names its line: a handler that catches it (by name, by Exception or bare) and raises a
-    # *new* AssemblerError replaces the faulty line by the handler's own (e.g. the `include` line of a parent file)
-    relabel = {}
-    for q, h, exc, chain in esc.handlers_seen:
-        if exc != 'AssemblerError':
+    for k, v in sorted(it.ev_discharge.items(), key=lambda t: getattr(t[1][1], 'lineno', 0)):
+        q, node, why = v[0], v[1], v[2]
+        if why == 'dominated':
+            rep.ok('R15.1.dominated', '{}: {} was already evaluated without raising on every path to this call'.format(q, unparse(node)[:80]))
+        else:
+            rep.ok('R15.1.size-token', '{}: {} reads the size token the reader appended from os.path.getsize() ({} lines)'.format(q, unparse(node)[:60], '/'.join(v[3])))
+    unreached_raises = 0
+    for q in sorted(it.reached):
+        fn = it.funcs[q]
+        if isinstance(fn, ast.Lambda):
             continue
-        raises = [n for n in ast.walk(h) if isinstance(n, ast.Raise)]
-        for r in raises:
-            if r.exc is None:
-                continue       # bare re-raise keeps the original
-            if isinstance(r.exc, ast.Name) and h.name and r.exc.id == h.name:
-                continue       # raise e
-            if isinstance(r.exc, ast.Call) and dotted(r.exc.func) == 'AssemblerError':
-                line_arg = r.exc.args[1] if len(r.exc.args) > 1 else None
-                keeps = line_arg is not None and h.name is not None and unparse(line_arg) in ('{}.line'.format(h.name),)
-                if not keeps:
-                    relabel.setdefault((q, id(h)), (q, h, r, chain))
-            elif isinstance(r.exc, ast.Call) and dotted(r.exc.func) in ('SystemExit',):
-                continue
-    for (q, _), (q2, h, r, chain) in sorted(relabel.items(), key=lambda t: t[0][0]):
-        if q2 == 'cli_main':
-            continue
-        origin = chain[-1]
-        rep.fail(Finding('R15.7.relabel', q2, r,
-                         'this handler also catches AssemblerError (e.g. the one raised at {}:{}) and replaces it by a new error carrying `{}`: a fault in an included file / deeper '
-                         'construct is reported at the wrong file and line'.format(origin[0], origin[1].lineno, unparse(r.exc.args[1]) if isinstance(r.exc, ast.Call) and len(r.exc.args) > 1 else '?'),
-                         line=r.lineno), instance='{} handler at {}'.format(q2, unparse(h.type) if h.type else 'bare'))
-    if not relabel:
-        rep.ok('R15.7.relabel', 'no handler re-labels an AssemblerError with another line')
-    # R15.2 every AssemblerError(...) carries a Line
-    n_ae = 0
-    for q, fn in cg.funcs.items():
         for n in walk_no_nested(fn):
-            if isinstance(n, ast.Call) and dotted(n.func) == 'AssemblerError':
-                n_ae += 1
-                arg = n.args[1] if len(n.args) > 1 else next((k.value for k in n.keywords if k.arg == 'line'), None)
-                ok = arg is not None and line_kinded(arg, fn, facts, cg)
-                rep.check(ok, 'R15.2.line', 'AssemblerError in {} carries a Line ({})'.format(q, unparse(arg) if arg is not None else 'missing'),
-                          lambda q=q, n=n, arg=arg: Finding('R15.2.line', q, n, 'this assembler error does not carry the Line of the faulty source line (second argument: {})'.format(
-                              unparse(arg) if arg is not None else 'missing'), line=n.lineno), nontrivial=False)
+            if isinstance(n, ast.Raise) and id(n) not in it.reached_nodes:
+                unreached_raises += 1
+                rep.ok('R15.1.dead', '{}: `{}` is unreachable in the interpretation'.format(q, unparse(n)[:70]))
+    # ---- R15.2 / R15.5.items: values flowing into Line-holding attributes ---------------------------------------------------------
+    line_nodes = set()
+    for ev in it.ev_store.values():
+        if any(is_line(a) for a in ev['val']):
+            line_nodes.add(id(ev['node']))
+    n_checked = n_ae = 0
+    polluted = False
+    line_findings = []
+    for ev in sorted(it.ev_store.values(), key=lambda e: (getattr(e['site'], 'lineno', 0), e['attr'])):
+        if id(ev['node']) not in line_nodes:
+            continue
+        is_err = any(it.is_exception_class(c) for c in ev['cls'])
+        n_checked += 1
+        n_ae += 1 if is_err else 0
+        bad = sorted({a for a in ev['val'] if not is_line(a)}, key=str)
+        rule = 'R15.2.line' if is_err else 'R15.5.items'
+        names = '/'.join(sorted(ev['cls']))
+        site = ev['site']
+        if bad and id(site) in it.approx_sites:
+            undecided.append('{}:{} the arguments of {} come from a * / ** expansion whose shape the analysis does not know'.format(ev['qual'], getattr(site, 'lineno', '?'), unparse(site)[:50]))
+            polluted = True
+            continue
+        if bad:
+            what = ', '.join(sorted({'None' if a == NONE else ('text' if a[0] in ('str', 'c', 'tok') else a[0]) for a in bad}))
+            msg = ('this assembler error does not carry the Line of the faulty source line (its `{}` may be: {})' if is_err else
+                   '{} is built without the Line of the source line it derives from (its `{{}}` may be: {{}})'.format(names)).format(ev['attr'], what)
+            line_findings.append((Finding(rule, ev['qual'], site, msg, line=getattr(site, 'lineno', None)), '{} {} {}'.format(ev['qual'], names, unparse(site)[:60])))
+            continue
+        lost = [a for a in ev['val'] if a[2] in ('*', '?')]
+        if lost:
+            undecided.append('{}:{} {} (which line the {} carries is not established)'.format(ev['qual'], getattr(site, 'lineno', '?'), unparse(site)[:50], names))
+            continue
+        rep.ok(rule, '{}: {} carries the line of the element being processed ({})'.format(ev['qual'], names, unparse(site)[:60]), nontrivial=False)
+    for f_, inst in line_findings:
+        if polluted:
+            # values of unknown shape were stored into Line-holding attributes: what is read back from them proves nothing
+            undecided.append('{}:{} {}'.format(f_.construct, f_.line, f_.stmt[:50]))
+        else:
+            rep.fail(f_, instance=inst)
+    rep.analysed['Line-holding attribute stores checked'] = n_checked
     rep.analysed['AssemblerError constructions'] = n_ae
-    # R15.3 Arithmetic.eval: the eval() call is under a catch-all whose handlers all raise AssemblerError with the line parameter
-    m = cg.funcs.get('Arithmetic.eval')
-    if m is None:
-        raise AnalysisError('anchor vanished: Arithmetic.eval')
-    ok3 = False
-    for t in [n for n in ast.walk(m) if isinstance(n, ast.Try)]:
-        has_eval = any(isinstance(n, ast.Call) and dotted(n.func) == 'eval' for b in t.body for n in ast.walk(b))
-        if has_eval:
-            catch_all = any(h.type is None or dotted(h.type) in ('Exception', 'BaseException') for h in t.handlers)
-            all_convert = all(h.body and isinstance(h.body[-1], ast.Raise) and isinstance(h.body[-1].exc, ast.Call)
-                              and dotted(h.body[-1].exc.func) == 'AssemblerError' for h in t.handlers)
-            ok3 = catch_all and all_convert
-    rep.check(ok3, 'R15.3.eval', 'eval() of user expressions is under a catch-all that converts to AssemblerError',
-              lambda: Finding('R15.3.eval', 'Arithmetic.eval', m, 'python exceptions from evaluating a user expression can leak (no catch-all converting handler around eval)', line=m.lineno))
-    # R15.5 origin and propagation of Line
-    rl = facts.funcs.get('read_lines')
-    lines_made = [n for n in ast.walk(rl) if isinstance(n, ast.Call) and dotted(n.func) == 'Line']
-    good = False
-    for n in lines_made:
-        loop = None
-        p = getattr(n, '_parent', None)
-        while p is not None and not isinstance(p, ast.For):
-            p = getattr(p, '_parent', None)
-        if p is None or len(n.args) != 3:
-            continue
-        it = p.iter
-        start1 = isinstance(it, ast.Call) and dotted(it.func) == 'enumerate' and any(k.arg == 'start' and isinstance(k.value, ast.Constant) and k.value.value == 1 for k in it.keywords) \
-            or (isinstance(it, ast.Call) and dotted(it.func) == 'enumerate' and len(it.args) == 2 and isinstance(it.args[1], ast.Constant) and it.args[1].value == 1)
-        tgt = p.target
-        idx_name = tgt.elts[0].id if isinstance(tgt, ast.Tuple) and isinstance(tgt.elts[0], ast.Name) else None
-        raw_name = tgt.elts[1].id if isinstance(tgt, ast.Tuple) and len(tgt.elts) > 1 and isinstance(tgt.elts[1], ast.Name) else None
-        over_source = (isinstance(it, ast.Call) and it.args and isinstance(it.args[0], ast.Call) and isinstance(it.args[0].func, ast.Attribute)
-                       and it.args[0].func.attr == 'splitlines')
-        path_arg = unparse(n.args[0])
-        # the path variable is the function's own path parameter (or '<string>')
-        path_defs = [unparse(st.value) for st in ast.walk(rl) if isinstance(st, ast.Assign) and any(isinstance(t, ast.Name) and t.id == path_arg for t in st.targets)]
-        path_ok = set(path_defs) <= {rl.args.args[0].arg, "'<string>'"} and bool(path_defs)
-        good = bool(start1) and unparse(n.args[1]) == idx_name and unparse(n.args[2]) == raw_name and over_source and path_ok
-        rep.check(good, 'R15.5.origin', 'Line(path of the file being read, 1-based index, raw text) per physical line',
-                  lambda n=n: Finding('R15.5.origin', 'read_lines', n, 'source lines are not recorded with the path of the file being read and their 1-based line number', line=n.lineno))
-    rep.check(bool(lines_made), 'R15.5.origin', 'read_lines creates Line objects',
-              lambda: Finding('R15.5.origin', 'read_lines', rl, 'no Line is created per source line', line=rl.lineno), nontrivial=False)
-    arms, _ = parse_item_outcomes(facts)
-    n_items = 0
-    for key, test, outcomes in arms:
-        for o in outcomes:
-            if o.kind == 'return' and o.cls and facts.is_subclass(o.cls, 'Item'):
-                n_items += 1
-                rep.check(bool(o.args) and o.args[0] == ('line',), 'R15.5.items', 'parse_item: {} carries the line it was parsed from'.format(o.cls),
-                          lambda o=o: Finding('R15.5.items', 'parse_item', o.node, '{} is built without the Line it was parsed from'.format(o.cls), line=o.node.lineno), nontrivial=False)
-    for name, guard, node, args, tgt in pipeline(facts):
-        if name in ('read_lines', 'resolve_blobs'):
-            continue
-        pa = LR.pass_analysis(facts, name)
-        for r in pa.rows:
-            for val, n in r['acc'].new_values:
-                if val[0] == 'new' and val[1] in facts.classes and facts.is_subclass(val[1], 'Item'):
-                    n_items += 1
-                    first = val[2][0] if val[2] else dict(val[3]).get('line')
-                    rep.check(first == ('attr', pa.item, 'line'), 'R15.5.items', '{}: {} keeps the source line of the item it derives from'.format(name, val[1]),
-                              lambda name=name, n=n, val=val: Finding('R15.5.items', name, n, '{} built by {} does not carry the source line of the item it replaces'.format(val[1], name), line=n.lineno),
-                              nontrivial=False)
-    rep.analysed['item constructions checked'] = n_items
-    # R15.6 rendering
-    ae = facts.classes.get('AssemblerError')
-    ln = facts.classes.get('Line')
-    s_ok = ae is not None and '__str__' in ae.methods and 'self.line' in unparse(ae.methods['__str__']) and 'self.message' in unparse(ae.methods['__str__'])
+    # ---- R15.5.origin -----------------------------------------------------------------------------------------------------------
+    n_lines = 0
+    for nid, evs in it.ev_line.items():
+        for (q, node, args) in evs:
+            n_lines += 1
+            vals = list(args.pos) + [frozenset()] * 3
+            c, iq = it.find_method(LINE, '__init__')
+            pnames = [a.arg for a in it.funcs[iq].args.args[1:]] if iq else []
+            for i, pn in enumerate(pnames[:3]):
+                if pn in args.kw:
+                    vals[i] = args.kw[pn]
+            files, numbers, texts = vals[0], vals[1], vals[2]
+            origins_ = set()
+            plain = False
+            for a in texts:
+                if a[0] == 'str' and isinstance(a[2], tuple) and a[2][0] == 'elem':
+                    origins_.add(a[2][1])
+                else:
+                    plain = True
+            if plain or not origins_:
+                one_line = all(a[0] == 'c' and a[2] == 1 for a in numbers) and all(a[0] == 'c' for a in files)
+                if one_line and not origins_:
+                    rep.ok('R15.5.origin', '{}: a one-line source is line 1 of a constant name'.format(q), nontrivial=False)
+                else:
+                    undecided.append('{}:{} the text of this Line is not an element of <source>.splitlines()'.format(q, node.lineno))
+                continue
+            wrong = None
+            for a in numbers:
+                if a[0] == 'idx':
+                    if a[1] is None:
+                        undecided.append('{}:{} enumerate() start is not a known constant'.format(q, node.lineno))
+                    elif a[1] != 1:
+                        wrong = 'the line number is the index counted from {} (must be 1-based)'.format(a[1])
+                    elif set(x for x in (a[2] or ())) != origins_:
+                        wrong = 'the line number counts the elements of another sequence than the physical lines the text is taken from'
+                else:
+                    undecided.append('{}:{} the line number is not an enumerate() index'.format(q, node.lineno))
+            allowed = set()
+            const_ok = False
+            for L in origins_:
+                src = L[1]
+                if isinstance(src, tuple) and src[0] == 'read':
+                    allowed.add(('str', 'u', src[1]))
+                elif isinstance(src, tuple) and src[0] == 'p':
+                    const_ok = True
+                else:
+                    undecided.append('{}:{} where the text being split comes from is not established'.format(q, node.lineno))
+            for a in files:
+                if a in allowed or (const_ok and a[0] == 'c' and a[1] == 'str'):
+                    continue
+                if a[0] in ('str', 'c'):
+                    wrong = wrong or 'the file recorded is not the path that was opened to read this source'
+                else:
+                    undecided.append('{}:{} the file of this Line is not understood'.format(q, node.lineno))
+            rep.check(wrong is None, 'R15.5.origin', '{}: Line(path of the file being read, 1-based index, raw text) per physical line'.format(q),
+                      lambda node=node, wrong=wrong, q=q: Finding('R15.5.origin', q, node, 'source lines are not recorded with the path of the file being read and their 1-based '
+                                                                 'line number: ' + wrong, line=node.lineno))
+    rep.analysed['Line constructions'] = n_lines
+    if not n_lines:
+        rep.fail(Finding('R15.5.origin', ENTRY, it.funcs[ENTRY], 'no Line is created per source line', line=it.funcs[ENTRY].lineno))
+    # ---- R15.7 -----------------------------------------------------------------------------------------------------------------
+    for (hid, oid), (q, h, new, old) in sorted(it.ev_relabel.items(), key=lambda t: (t[1][0], getattr(t[1][2].origin, 'lineno', 0))):
+        oq = old.chain[-1][0]
+        rep.fail(Finding('R15.7.relabel', q, new.origin,
+                         'this handler also catches AssemblerError (e.g. the one raised at {}:{}) and replaces it by a new error carrying another line: a fault in an included '
+                         'file / deeper construct is reported at the wrong file and line'.format(oq, getattr(old.origin, 'lineno', '?')),
+                         line=getattr(new.origin, 'lineno', None)), instance='{} handler at line of {}'.format(q, unparse(h.type) if getattr(h, 'type', None) is not None else 'bare'))
+    if not it.ev_relabel:
+        rep.ok('R15.7.relabel', 'no handler re-labels an error that already carries its line')
+    # ---- R15.6 rendering --------------------------------------------------------------------------------------------------------
+    err_fields = {ev['attr'] for ev in it.ev_store.values() if ERROR in ev['cls'] and id(ev['node']) in line_nodes}
+    ae = it.classes[ERROR]
+    ln = it.classes[LINE]
+    keeps = bool(err_fields)
+    rep.check(keeps, 'R15.6.render', 'AssemblerError keeps the line it is given',
+              lambda: Finding('R15.6.render', ERROR + '.__init__', ae.node, 'the error does not store its line argument', line=ae.node.lineno), nontrivial=False)
+    c, sq = it.find_method(ERROR, '__str__')
+    shown, opaque = returned_self_attrs(it, ERROR, it.funcs[sq]) if sq else (set(), False)
+    fields, params = init_param_fields(it, ERROR) or ({}, [])
+    msg_fields = {f for f, ps in fields.items() if params and params[0] in ps}
+    s_ok = sq is not None and bool(shown & err_fields) and (not msg_fields or bool(shown & msg_fields))
+    if not s_ok and opaque:
+        undecided.append('{}.__str__ hands self to code that is not followed: what it shows is not established'.format(ERROR))
+        s_ok = True
     rep.check(s_ok, 'R15.6.render', 'AssemblerError.__str__ shows the line and the message',
-              lambda: Finding('R15.6.render', 'AssemblerError.__str__', ae.node if ae else 'AssemblerError', 'the error text does not include the source line', line=ae.node.lineno if ae else 1))
-    l_ok = ln is not None and '__str__' in ln.methods and 'self.file' in unparse(ln.methods['__str__']) and 'self.number' in unparse(ln.methods['__str__'])
+              lambda: Finding('R15.6.render', ERROR + '.__str__', it.funcs[sq] if sq else ae.node, 'the error text does not include the source line', line=ae.node.lineno))
+    c, lq = it.find_method(LINE, '__str__')
+    lshown, lopaque = returned_self_attrs(it, LINE, it.funcs[lq]) if lq else (set(), False)
+    lfields, lparams = init_param_fields(it, LINE) or ({}, [])
+    need = []
+    for i in (0, 1):
+        if i < len(lparams):
+            need.append({f for f, ps in lfields.items() if lparams[i] in ps})
+    l_ok = lq is not None and len(need) == 2 and all(n and (lshown & n) for n in need)
+    if not l_ok and lopaque:
+        undecided.append('{}.__str__ hands self to code that is not followed: what it shows is not established'.format(LINE))
+        l_ok = True
     rep.check(l_ok, 'R15.6.render', 'Line.__str__ shows file and line number',
-              lambda: Finding('R15.6.render', 'Line.__str__', ln.node if ln else 'Line', 'a Line does not render its file and number', line=ln.node.lineno if ln else 1))
-    init = ae.methods.get('__init__') if ae else None
-    i_ok = init is not None and any(isinstance(n, ast.Assign) and unparse(n.targets[0]) == 'self.line' and unparse(n.value) == init.args.args[2].arg for n in ast.walk(init)) if init and len(init.args.args) > 2 else False
-    rep.check(i_ok, 'R15.6.render', 'AssemblerError keeps the line it is given',
-              lambda: Finding('R15.6.render', 'AssemblerError.__init__', init or 'AssemblerError', 'the error does not store its line argument', line=ae.node.lineno if ae else 1), nontrivial=False)
-    # informational: implicit escape candidates
-    cands = []
-    pi = facts.funcs.get('parse_item')
-    for n in ast.walk(pi):
-        if isinstance(n, ast.Assign) and isinstance(n.targets[0], ast.Tuple) and isinstance(n.value, ast.Name) and n.value.id == 'tokens':
-            cands.append(n.lineno)
-    rep.analysed['escape-candidates (implicit arity errors, informational)'] = len(cands)
-    rep.sample({'conversions': ['{} from {} in {}'.format(e, o, q) for (o, e, q) in sorted(conv)][:12]})
-    rep.floor('functions in call graph', 200)
-    rep.floor('raise sites', 60)
-    rep.floor('AssemblerError constructions', 30)
-    rep.floor('conversions seen', 10)
-    rep.floor('item constructions checked', 60)
+              lambda: Finding('R15.6.render', LINE + '.__str__', it.funcs[lq] if lq else ln.node, 'a Line does not render its file and number', line=ln.node.lineno))
+    # ---- coverage of the interpretation (a vacuous pass is analysis-broken) -----------------------------------------------------
+    total = visited = 0
+    for q in it.reached:
+        fn = it.funcs[q]
+        if isinstance(fn, ast.Lambda):
+            continue
+        for n in walk_no_nested(fn):
+            if isinstance(n, ast.stmt) and not isinstance(n, (ast.FunctionDef, ast.ClassDef)):
+                total += 1
+                visited += 1 if id(n) in it.reached_nodes else 0
+    rep.analysed['statements of reached functions'] = total
+    rep.analysed['statements interpreted'] = visited
+    rep.analysed['percent of reached statements interpreted'] = (100 * visited) // max(total, 1)
+    # what the mnemonic table binds must have been called: partial(...) targets, closures, or objects with __call__
+    enc = set()
+    n_bindings = 0
+    table = it.module.store.vars.get('INSTRUCTIONS')
+    for a in (table or ()):
+        if a[0] == 'kdict':
+            for _, v in a[1]:
+                for b in v:
+                    n_bindings += 1
+                    f = b[1] if b[0] == 'partial' else b
+                    if f[0] in ('fn', 'clo'):
+                        enc.add(f[1])
+                    elif f[0] == 'obj' and f[1] in it.classes:
+                        c_, q_ = it.find_method(f[1], '__call__')
+                        if q_ is not None:
+                            enc.add(q_)
+    rep.analysed['mnemonic bindings'] = n_bindings
+    rep.analysed['functions bound by mnemonics'] = len(enc)
+    rep.analysed['functions bound by mnemonics reached'] = len(enc & it.reached)
+    rep.analysed['item / token / error constructions reached'] = len(it.ev_construct)
+    rep.sample({'conversions': ['{} from {}:{} in {}'.format(r.cls, r.chain[-1][0], getattr(r.origin, 'lineno', '?'), q) for (q, h, r) in list(conv.values())[:12]]})
+    for nid, (q, node, callee) in sorted(it.arity_mismatch.items(), key=lambda t: getattr(t[1][1], 'lineno', 0)):
+        if not any(k[1] == nid for k in it.call_edges):
+            undecided.append('{}:{} no callee of `{}` accepts the arguments as the analysis sees them'.format(q, getattr(node, 'lineno', '?'), unparse(node)[:50]))
+    if undecided and not rep.findings:
+        raise AnalysisError('not established: ' + '; '.join(sorted(set(undecided))[:4]))
+    if enc and len(enc & it.reached) < len(enc):
+        if not rep.findings:
+            raise AnalysisError('encoders bound in INSTRUCTIONS are not reached from assemble(): {}'.format(sorted(enc - it.reached)[:5]))
+    rep.floor('functions reached from assemble', 100)
+    rep.floor('exception origins reached', 8)
+    rep.floor('conversions seen', 5)
+    rep.floor('AssemblerError constructions', 5)
+    rep.floor('Line-holding attribute stores checked', 60)
+    rep.floor('mnemonic bindings', 40)
+    rep.floor('functions bound by mnemonics', 1)
+    rep.floor('percent of reached statements interpreted', 90)
     return rep
